@@ -26,4 +26,12 @@ CHECKS = {
         "old block overwritten with 0xDD and freed) are compared with the one-shot high-level function; intermediate Gets are compared with "
         "the one-shot value of the prefix.",
    note="Trusts the one-shot functions (tied to the standard by C01/C03); messages up to ~5 internal blocks; splits restricted to what each header permits."),
+ "C14": dict(level="exploration",
+   technique="memcheck taint tracking on the Release build + branch-trace (trace-pc) equality over value sets + SAFE/FAST differential",
+   text="All 33 SAFE/FAST pairs are compared on equal / first-differing-at-every-position / boundary / multiple-of-modulus operands at lengths "
+        "0..16 words (0..40 octets); the Release machine code is run under memcheck with operand values, keys, tags and data marked undefined "
+        "(any dependent conditional jump inside a target is a violation; FAST editions are the positive control every run); and a "
+        "coverage-instrumented Release build must produce one identical executed-edge trace per (target, length) over 64 value sets.",
+   note="memcheck follows one path per run and does not propagate taint through table look-ups; trace equality is over sampled values; "
+        "cache-timing via table indices is outside the property; gcc -O3 build only (clang Release in thorough is not yet added)."),
 }
